@@ -564,9 +564,9 @@ func (vc *VC) bytesToString(st *State, v Val, to types.Type) Val {
 	s := vc.sc.fresh("str", sortStr)
 	et := v.T.Underlying().(*types.Slice).Elem()
 	h := vc.heapGet(st, elemHeap(et, ""), arraySort(sortRef, arraySort(sortIdx, bvSort(8))))
-	vc.sc.assert(eq(sx("str.len", s), v.Sl[2]))
+	vc.sc.assert(eq(sx("s.len", s), v.Sl[2]))
 	i := "i!q"
-	vc.sc.assert(fmt.Sprintf("(forall ((%s %s)) (! (=> (and (bvsle %s %s) (bvslt %s %s)) (= (str.at %s %s) %s)) :pattern ((str.at %s %s))))",
+	vc.sc.assert(fmt.Sprintf("(forall ((%s %s)) (! (=> (and (bvsle %s %s) (bvslt %s %s)) (= (s.at %s %s) %s)) :pattern ((s.at %s %s))))",
 		i, sortIdx, i64(0), i, i, v.Sl[2], s, i, sel(sel(h, v.Sl[0]), bvAdd(v.Sl[1], i)), s, i))
 	return Val{K: KScalar, T: to, S: s}
 }
@@ -580,8 +580,8 @@ func (vc *VC) stringToBytes(st *State, v Val, to types.Type) Val {
 	r := vc.alloc(st, "arr")
 	a := vc.sc.fresh("bytes", arraySort(sortIdx, bvSort(8)))
 	i := "i!q"
-	ln := sx("str.len", v.S)
-	vc.sc.assert(fmt.Sprintf("(forall ((%s %s)) (! (=> (and (bvsle %s %s) (bvslt %s %s)) (= (select %s %s) (str.at %s %s))) :pattern ((select %s %s))))",
+	ln := sx("s.len", v.S)
+	vc.sc.assert(fmt.Sprintf("(forall ((%s %s)) (! (=> (and (bvsle %s %s) (bvslt %s %s)) (= (select %s %s) (s.at %s %s))) :pattern ((select %s %s))))",
 		i, sortIdx, i64(0), i, i, ln, a, i, v.S, i, a, i))
 	vc.heapSet(st, hn, hs, vc.sc.define("h", hs, store(h, r, a)))
 	return Val{K: KSlice, T: to, Sl: [4]string{r, i64(0), ln, ln}}
@@ -654,7 +654,13 @@ func (vc *VC) binop(st *State, op token.Token, a, b Val, pos token.Position) Val
 				vc.oblige(st, "nopanic", "nopanic.shift", "negative shift amount", pos, sx("bvsge", y, bvInt(0, yw)))
 			}
 			var amt string
-			if yw == w {
+			if yv, _, isLit := bvLit(y); isLit {
+				if yv.Cmp(big.NewInt(int64(w))) >= 0 {
+					amt = bvInt(int64(w), w)
+				} else {
+					amt = bvConst(yv, w)
+				}
+			} else if yw == w {
 				amt = y
 			} else if yw < w {
 				amt = extend(y, yw, w, false)
@@ -683,21 +689,21 @@ func (vc *VC) binop(st *State, op token.Token, a, b Val, pos token.Position) Val
 			switch op {
 			case token.ADD:
 				vc.declStr()
-				vc.sc.declareFun("str.cat", []string{sortStr, sortStr}, sortStr)
-				r := sx("str.cat", a.S, b.S)
-				vc.sc.assert(eq(sx("str.len", r), bvAdd(sx("str.len", a.S), sx("str.len", b.S))))
+				vc.sc.declareFun("s.cat", []string{sortStr, sortStr}, sortStr)
+				r := sx("s.cat", a.S, b.S)
+				vc.sc.assert(eq(sx("s.len", r), bvAdd(sx("s.len", a.S), sx("s.len", b.S))))
 				return Val{K: KScalar, T: a.T, S: r}
 			case token.LSS, token.LEQ, token.GTR, token.GEQ:
-				vc.sc.declareFun("str.lt", []string{sortStr, sortStr}, sortBool)
+				vc.sc.declareFun("s.lt", []string{sortStr, sortStr}, sortBool)
 				switch op {
 				case token.LSS:
-					return boolVal(sx("str.lt", a.S, b.S))
+					return boolVal(sx("s.lt", a.S, b.S))
 				case token.GTR:
-					return boolVal(sx("str.lt", b.S, a.S))
+					return boolVal(sx("s.lt", b.S, a.S))
 				case token.LEQ:
-					return boolVal(not(sx("str.lt", b.S, a.S)))
+					return boolVal(not(sx("s.lt", b.S, a.S)))
 				default:
-					return boolVal(not(sx("str.lt", a.S, b.S)))
+					return boolVal(not(sx("s.lt", a.S, b.S)))
 				}
 			}
 		case bt.Info()&types.IsFloat != 0:
@@ -872,7 +878,7 @@ func (vc *VC) lenOf(st *State, v Val) Val {
 		return intVal(v.Sl[2])
 	case KScalar:
 		vc.declStr()
-		return intVal(sx("str.len", v.S))
+		return intVal(sx("s.len", v.S))
 	case KArray:
 		return intVal(i64(v.T.Underlying().(*types.Array).Len()))
 	case KRef:
@@ -957,19 +963,19 @@ func (vc *VC) sliceOp(st *State, x Val, lo, hi, max *Val, rt types.Type, pos tok
 		return Val{K: KSlice, T: rt, Sl: [4]string{x.Sl[0], bvAdd(x.Sl[1], l), bvSub(h, l), bvSub(m, l)}}
 	case KScalar: // string
 		vc.declStr()
-		ln := sx("str.len", x.S)
+		ln := sx("s.len", x.S)
 		if hi != nil {
 			h = toIdx(*hi)
 		} else {
 			h = ln
 		}
 		vc.oblige(st, "nopanic", "nopanic.slice:"+what, "slice bounds out of range", pos, and(sx("bvsle", z, l), sx("bvsle", l, h), sx("bvsle", h, ln)))
-		vc.sc.declareFun("str.sub", []string{sortStr, sortIdx, sortIdx}, sortStr)
-		r := sx("str.sub", x.S, l, h)
+		vc.sc.declareFun("s.sub", []string{sortStr, sortIdx, sortIdx}, sortStr)
+		r := sx("s.sub", x.S, l, h)
 		rn := vc.sc.define("sub", sortStr, r)
-		vc.sc.assert(implies(and(sx("bvsle", z, l), sx("bvsle", l, h), sx("bvsle", h, ln)), eq(sx("str.len", rn), bvSub(h, l))))
+		vc.sc.assert(implies(and(sx("bvsle", z, l), sx("bvsle", l, h), sx("bvsle", h, ln)), eq(sx("s.len", rn), bvSub(h, l))))
 		i := "i!q"
-		vc.sc.assert(fmt.Sprintf("(forall ((%s %s)) (! (=> (and (bvsle %s %s) (bvslt %s %s)) (= (str.at %s %s) (str.at %s (bvadd %s %s)))) :pattern ((str.at %s %s))))",
+		vc.sc.assert(fmt.Sprintf("(forall ((%s %s)) (! (=> (and (bvsle %s %s) (bvslt %s %s)) (= (s.at %s %s) (s.at %s (bvadd %s %s)))) :pattern ((s.at %s %s))))",
 			i, sortIdx, z, i, i, bvSub(h, l), rn, i, x.S, l, i, rn, i))
 		return Val{K: KScalar, T: rt, S: rn}
 	case KPtr:
@@ -1012,7 +1018,7 @@ func (vc *VC) appendOp(st *State, s, t Val, pos token.Position) Val {
 	tIsStr := t.K == KScalar
 	if tIsStr {
 		vc.declStr()
-		tl = sx("str.len", t.S)
+		tl = sx("s.len", t.S)
 	} else if t.K == KSlice {
 		tl = t.Sl[2]
 	} else {
@@ -1037,7 +1043,7 @@ func (vc *VC) appendOp(st *State, s, t Val, pos token.Position) Val {
 		h := vc.heapGet(st, hn, hs)
 		src := func(k string) string { // k-th appended element
 			if tIsStr {
-				return sx("str.at", t.S, k)
+				return sx("s.at", t.S, k)
 			}
 			return sel(sel(h, t.Sl[0]), bvAdd(t.Sl[1], k))
 		}
@@ -1086,7 +1092,7 @@ func (vc *VC) copyOp(st *State, d, s Val, pos token.Position) Val {
 	sIsStr := s.K == KScalar
 	if sIsStr {
 		vc.declStr()
-		sl = sx("str.len", s.S)
+		sl = sx("s.len", s.S)
 	} else if s.K == KSlice {
 		sl = s.Sl[2]
 	} else {
@@ -1123,7 +1129,7 @@ func (vc *VC) copyOp(st *State, d, s Val, pos token.Position) Val {
 		h := vc.heapGet(st, hn, hs)
 		src := func(k string) string {
 			if sIsStr {
-				return sx("str.at", s.S, k)
+				return sx("s.at", s.S, k)
 			}
 			return sel(sel(h, s.Sl[0]), bvAdd(s.Sl[1], k))
 		}
@@ -1208,7 +1214,7 @@ func (vc *VC) appendOwned(st *State, s, t Val, pos token.Position) Val {
 	tIsStr := t.K == KScalar
 	if tIsStr {
 		vc.declStr()
-		tl = sx("str.len", t.S)
+		tl = sx("s.len", t.S)
 	} else if t.K == KSlice {
 		tl = t.Sl[2]
 	} else {
@@ -1231,7 +1237,7 @@ func (vc *VC) appendOwned(st *State, s, t Val, pos token.Position) Val {
 		h := vc.heapGet(st, hn, hs)
 		src := func(k string) string {
 			if tIsStr {
-				return sx("str.at", t.S, k)
+				return sx("s.at", t.S, k)
 			}
 			return sel(sel(h, t.Sl[0]), bvAdd(t.Sl[1], k))
 		}
